@@ -31,7 +31,7 @@ PROPS["C19"] = dict(
     runs=[
         dict(name="regress", pkg="c19", run="TestRegress"),
         dict(name="enum", pkg="c19", run="TestEnum", shards=dict(quick=1, thorough=16), timeout=dict(quick=300, thorough=1500)),
-        dict(name="random", pkg="c19", run="TestRandom", checks=dict(quick=40000, thorough=1600000),
+        dict(name="random", pkg="c19", run="TestRandom", checks=dict(quick=160000, thorough=1600000),
              shards=dict(quick=4, thorough=16), timeout=dict(quick=300, thorough=1500)),
     ],
 )
@@ -60,7 +60,7 @@ PROPS["C06"] = dict(
     runs=[
         dict(name="regress", pkg="c06", run="TestRegress"),
         dict(name="enum", pkg="c06", run="TestEnum", shards=dict(quick=4, thorough=16), timeout=dict(quick=300, thorough=1800)),
-        dict(name="random", pkg="c06", run="TestRandom", checks=dict(quick=6000, thorough=200000),
+        dict(name="random", pkg="c06", run="TestRandom", checks=dict(quick=16000, thorough=200000),
              shards=dict(quick=6, thorough=16), timeout=dict(quick=300, thorough=1800)),
     ],
 )
@@ -130,9 +130,9 @@ PROPS["C08"] = dict(
     ],
     runs=[
         dict(name="regress", pkg="c08", run="TestRegress"),
-        dict(name="random", pkg="c08", run="TestRandom", checks=dict(quick=40000, thorough=800000),
+        dict(name="random", pkg="c08", run="TestRandom", checks=dict(quick=120000, thorough=800000),
              shards=dict(quick=8, thorough=16), timeout=dict(quick=300, thorough=1800)),
-        dict(name="alldeliveries", pkg="c08", run="TestAllDeliveries", checks=dict(quick=1600, thorough=40000),
+        dict(name="alldeliveries", pkg="c08", run="TestAllDeliveries", checks=dict(quick=3200, thorough=40000),
              shards=dict(quick=8, thorough=16), timeout=dict(quick=300, thorough=1800)),
     ],
 )
@@ -152,7 +152,7 @@ PROPS["C09"] = dict(
     assumptions=["node clock strictly increasing (one writer at a time)", "visible state = All()/Get('#') through the public read API"],
     runs=[
         dict(name="regress", pkg="c09", run="TestRegress"),
-        dict(name="random", pkg="c09", run="TestRandom", checks=dict(quick=60000, thorough=1000000),
+        dict(name="random", pkg="c09", run="TestRandom", checks=dict(quick=160000, thorough=1000000),
              shards=dict(quick=8, thorough=16), timeout=dict(quick=300, thorough=1800)),
     ],
 )
@@ -172,7 +172,7 @@ PROPS["C10"] = dict(
     assumptions=["one global strictly increasing clock (clock skew is C08's subject)", "the model tracks each node during the history and is itself compared with the node before the exchange"],
     runs=[
         dict(name="regress", pkg="c10", run="TestRegress"),
-        dict(name="random", pkg="c10", run="TestRandom", checks=dict(quick=60000, thorough=1000000),
+        dict(name="random", pkg="c10", run="TestRandom", checks=dict(quick=200000, thorough=1000000),
              shards=dict(quick=8, thorough=16), timeout=dict(quick=300, thorough=1800)),
     ],
 )
@@ -196,9 +196,9 @@ PROPS["C01"] = dict(
     runs=[
         dict(name="regress", pkg="c01", run="TestRegress"),
         dict(name="pairs", pkg="c01", run="TestPairs", shards=dict(quick=2, thorough=4)),
-        dict(name="sets", pkg="c01", run="TestSets", checks=dict(quick=8000, thorough=300000), shards=dict(quick=8, thorough=16), timeout=dict(quick=300, thorough=1800)),
-        dict(name="histories", pkg="c01", run="TestHistories", checks=dict(quick=20000, thorough=400000), shards=dict(quick=4, thorough=16), timeout=dict(quick=300, thorough=1800)),
-        dict(name="e2e", pkg="c01", run="TestE2E", checks=dict(quick=320, thorough=6000), shards=16, timeout=dict(quick=400, thorough=2400), shrinktime="90s"),
+        dict(name="sets", pkg="c01", run="TestSets", checks=dict(quick=24000, thorough=300000), shards=dict(quick=8, thorough=16), timeout=dict(quick=300, thorough=1800)),
+        dict(name="histories", pkg="c01", run="TestHistories", checks=dict(quick=60000, thorough=400000), shards=dict(quick=4, thorough=16), timeout=dict(quick=300, thorough=1800)),
+        dict(name="e2e", pkg="c01", run="TestE2E", checks=dict(quick=640, thorough=6000), shards=16, timeout=dict(quick=400, thorough=2400), shrinktime="90s"),
     ],
 )
 
@@ -226,7 +226,7 @@ PROPS["C02"] = dict(
     runs=[
         dict(name="regress", pkg="c02", run="TestRegress", timeout=300),
         dict(name="long", pkg="c02", run="TestLong", timeout=dict(quick=300, thorough=900)),
-        dict(name="random", pkg="c02", run="TestRandom", checks=dict(quick=480, thorough=8000), shards=dict(quick=16, thorough=16),
+        dict(name="random", pkg="c02", run="TestRandom", checks=dict(quick=960, thorough=8000), shards=dict(quick=16, thorough=16),
              timeout=dict(quick=400, thorough=2400), shrinktime="90s"),
     ],
 )
@@ -250,7 +250,7 @@ PROPS["C11"] = dict(
                  "node failure = NotifyGossipLeave on the survivors; the check waits (real time, up to 15 s) for the delayed record cleanup"],
     runs=[
         dict(name="regress", pkg="c11", run="TestRegress", timeout=300),
-        dict(name="random", pkg="c11", run="TestRandom", checks=dict(quick=640, thorough=12000), shards=16, timeout=dict(quick=400, thorough=2400), shrinktime="90s"),
+        dict(name="random", pkg="c11", run="TestRandom", checks=dict(quick=1280, thorough=12000), shards=16, timeout=dict(quick=400, thorough=2400), shrinktime="90s"),
         dict(name="nodefail", pkg="c11", run="TestNodeFailure", checks=dict(quick=48, thorough=800), shards=16, timeout=dict(quick=400, thorough=2400), shrinktime="120s"),
     ],
 )
@@ -271,7 +271,7 @@ PROPS["C13"] = dict(
     assumptions=["gossip fully delivered before the cause", "a retained will is expected to be replayed to a later subscriber like any retained publish"],
     runs=[
         dict(name="regress", pkg="c13", run="TestRegress", timeout=300),
-        dict(name="random", pkg="c13", run="TestRandom", checks=dict(quick=480, thorough=8000), shards=16, timeout=dict(quick=400, thorough=2400), shrinktime="90s"),
+        dict(name="random", pkg="c13", run="TestRandom", checks=dict(quick=960, thorough=8000), shards=16, timeout=dict(quick=400, thorough=2400), shrinktime="90s"),
         dict(name="nodefail", pkg="c13", run="TestNodeFailure", checks=dict(quick=48, thorough=800), shards=16, timeout=dict(quick=400, thorough=2400), shrinktime="120s"),
     ],
 )
@@ -294,7 +294,7 @@ PROPS["C12"] = dict(
     assumptions=["proviso of the property: the accepting node knows the previous session", "judged only with all gossip delivered (quiescence)"],
     runs=[
         dict(name="regress", pkg="c12", run="TestRegress", timeout=300),
-        dict(name="random", pkg="c12", run="TestRandom", checks=dict(quick=800, thorough=16000), shards=16, timeout=dict(quick=400, thorough=2400), shrinktime="90s"),
+        dict(name="random", pkg="c12", run="TestRandom", checks=dict(quick=1600, thorough=16000), shards=16, timeout=dict(quick=400, thorough=2400), shrinktime="90s"),
     ],
 )
 
@@ -315,7 +315,7 @@ PROPS["C17"] = dict(
     assumptions=["mount point = username via the harness authentication handler", "within one tenant client ids are distinct (takeover inside a tenant is C12's subject)"],
     runs=[
         dict(name="regress", pkg="c17", run="TestRegress", timeout=300),
-        dict(name="random", pkg="c17", run="TestRandom", checks=dict(quick=640, thorough=12000), shards=16, timeout=dict(quick=400, thorough=2400), shrinktime="90s"),
+        dict(name="random", pkg="c17", run="TestRandom", checks=dict(quick=1280, thorough=12000), shards=16, timeout=dict(quick=400, thorough=2400), shrinktime="90s"),
         dict(name="nodefail", pkg="c17", run="TestNodeFailure", checks=dict(quick=32, thorough=600), shards=16, timeout=dict(quick=400, thorough=2400), shrinktime="120s"),
     ],
 )
@@ -337,7 +337,7 @@ PROPS["C14"] = dict(
     assumptions=["unreachable = the transport's Call returns an error without invoking the RPC", "QoS 0 publishes carry no acknowledgement to judge"],
     runs=[
         dict(name="regress", pkg="c14", run="TestRegress", timeout=300),
-        dict(name="random", pkg="c14", run="TestRandom", checks=dict(quick=320, thorough=6000), shards=16, timeout=dict(quick=400, thorough=2400), shrinktime="90s"),
+        dict(name="random", pkg="c14", run="TestRandom", checks=dict(quick=800, thorough=6000), shards=16, timeout=dict(quick=400, thorough=2400), shrinktime="90s"),
     ],
 )
 
@@ -361,7 +361,7 @@ PROPS["C05"] = dict(
     runs=[
         dict(name="regress", pkg="c05", run="TestRegress", timeout=300),
         dict(name="subsets", pkg="c05", run="TestFaultSubsets", timeout=400),
-        dict(name="random", pkg="c05", run="TestRandom", checks=dict(quick=480, thorough=8000), shards=16, timeout=dict(quick=400, thorough=2400), shrinktime="90s"),
+        dict(name="random", pkg="c05", run="TestRandom", checks=dict(quick=960, thorough=8000), shards=16, timeout=dict(quick=400, thorough=2400), shrinktime="90s"),
     ],
 )
 
@@ -385,7 +385,7 @@ PROPS["C03"] = dict(
     runs=[
         dict(name="regress", pkg="c03", run="TestRegress", timeout=300),
         dict(name="ticker", pkg="c03", run="TestTickerWiring", timeout=300),
-        dict(name="random", pkg="c03", run="TestRandom", checks=dict(quick=320, thorough=6000), shards=16, timeout=dict(quick=400, thorough=2400), shrinktime="90s"),
+        dict(name="random", pkg="c03", run="TestRandom", checks=dict(quick=640, thorough=6000), shards=16, timeout=dict(quick=400, thorough=2400), shrinktime="90s"),
     ],
 )
 
@@ -407,8 +407,8 @@ PROPS["C07"] = dict(
     runs=[
         dict(name="regress", pkg="c07", run="TestRegress", timeout=300),
         dict(name="stateenum", pkg="c07", run="TestStateEnum", shards=dict(quick=4, thorough=16), timeout=dict(quick=300, thorough=1800)),
-        dict(name="state", pkg="c07", run="TestState", checks=dict(quick=4000, thorough=100000), shards=dict(quick=8, thorough=16), timeout=dict(quick=300, thorough=1800)),
-        dict(name="e2e", pkg="c07", run="TestE2E", checks=dict(quick=320, thorough=6000), shards=16, timeout=dict(quick=400, thorough=2400), shrinktime="90s"),
+        dict(name="state", pkg="c07", run="TestState", checks=dict(quick=10000, thorough=100000), shards=dict(quick=8, thorough=16), timeout=dict(quick=300, thorough=1800)),
+        dict(name="e2e", pkg="c07", run="TestE2E", checks=dict(quick=640, thorough=6000), shards=16, timeout=dict(quick=400, thorough=2400), shrinktime="90s"),
     ],
 )
 
@@ -431,7 +431,7 @@ PROPS["C16"] = dict(
         dict(name="regress", pkg="c16", run="TestRegress", timeout=300),
         dict(name="file", pkg="c16", run="TestFile", checks=dict(quick=20000, thorough=400000), shards=dict(quick=8, thorough=16), timeout=dict(quick=300, thorough=1800)),
         dict(name="static", pkg="c16", run="TestStatic", checks=dict(quick=4000, thorough=100000), shards=dict(quick=2, thorough=8), timeout=dict(quick=300, thorough=1800)),
-        dict(name="e2e", pkg="c16", run="TestE2E", checks=dict(quick=320, thorough=6000), shards=16, timeout=dict(quick=400, thorough=2400), shrinktime="90s"),
+        dict(name="e2e", pkg="c16", run="TestE2E", checks=dict(quick=640, thorough=6000), shards=16, timeout=dict(quick=400, thorough=2400), shrinktime="90s"),
     ],
 )
 
@@ -461,7 +461,7 @@ PROPS["C18"] = dict(
         dict(name="regress", pkg="c18", run="TestRegress", timeout=300),
         dict(name="constants", pkg="c18", run="TestConstants", timeout=400),
         dict(name="states", pkg="c18", run="TestProtocolStates", shards=16, timeout=dict(quick=400, thorough=2400)),
-        dict(name="random", pkg="c18", run="TestRandom", checks=dict(quick=480, thorough=10000), shards=16, timeout=dict(quick=400, thorough=2400), shrinktime="60s"),
+        dict(name="random", pkg="c18", run="TestRandom", checks=dict(quick=800, thorough=10000), shards=16, timeout=dict(quick=400, thorough=2400), shrinktime="60s"),
         dict(name="nativefuzz", pkg="c18", fuzz="FuzzClientBytes", run="FuzzClientBytes", fuzztime=dict(thorough=150), tiers=("thorough",)),
     ],
 )
@@ -489,7 +489,7 @@ PROPS["C15"] = dict(
     runs=[
         dict(name="regress", pkg="c15", run="TestRegress", timeout=300),
         dict(name="enum", pkg="c15", run="TestEnumSmall", shards=dict(quick=8, thorough=16), timeout=dict(quick=400, thorough=2400)),
-        dict(name="random", pkg="c15", run="TestRandom", checks=dict(quick=160, thorough=3000), shards=16, timeout=dict(quick=400, thorough=2400), shrinktime="60s"),
+        dict(name="random", pkg="c15", run="TestRandom", checks=dict(quick=800, thorough=3000), shards=16, timeout=dict(quick=400, thorough=2400), shrinktime="60s"),
     ],
 )
 
